@@ -272,6 +272,47 @@ def fn_name_of_item(it):
     return sel[-1]
 
 
+GENERIC_NAMES = {"new", "len", "push", "from", "into", "default", "clone", "fmt", "drop", "get", "insert", "remove", "is_empty", "try_from", "eq"}
+
+
+def callee_closure(report, lines):
+    """LINT ONLY (bin/lint-props; not used for attribution — name-based call edges are too coarse to blame a property with).
+    Modular verification checks a caller against its callee's CONTRACT, so a property mapped to a function also rests on the
+    contracts of the functions it calls. Returns {selector: set(properties)}: for every extracted function, the properties of every
+    function of the unit that (transitively) calls it; the side-cars' `props=` lists are curated by hand against this listing. Call edges are read off the generated text (`name(`); names shared with std
+    (new, len, push, ...) only count when written `Self::name(` / `self.name(` / `Type::name(`."""
+    items = [it for it in report["items"] if it.get("out_lines") and re.search(r"\bfn\b", it["selector"])]
+    names, texts = [], []
+    for it in items:
+        text = "\n".join(lines[it["out_lines"][0] - 1: it["out_lines"][1]])
+        m = re.search(r"\bfn\s+([A-Za-z_0-9]+)", text)
+        names.append(m.group(1) if m else None)
+        # body only: drop the signature/contract part so that a callee named in an `ensures` clause is not an edge
+        b = text.find("\n{")
+        texts.append(text[b:] if b >= 0 else text)
+    calls = {i: set() for i in range(len(items))}
+    for i in range(len(items)):
+        for j in range(len(items)):
+            if i == j or not names[j]:
+                continue
+            nm = re.escape(names[j])
+            pat = (r"(?:\bSelf::|\bself\.|\b[A-Z][A-Za-z_0-9]*::)%s\s*\(" % nm) if names[j] in GENERIC_NAMES else (r"\b%s\s*(?:::<[^>]*>)?\(" % nm)
+            if re.search(pat, texts[i]):
+                calls[i].add(j)
+    inherited = {}
+    for i, it in enumerate(items):
+        seen, stack = set(), [i]
+        while stack:
+            k = stack.pop()
+            for j in calls[k]:
+                if j not in seen:
+                    seen.add(j)
+                    stack.append(j)
+        for j in seen:
+            inherited.setdefault(items[j]["selector"], set()).update(it["props"])
+    return inherited
+
+
 def analyse_unit(unit, res, report, unit_path):
     """Attribute Verus diagnostics. Returns dict(compile_error, resource, canary_ok, failures=[...])."""
     out = {"compile_error": None, "resource": [], "failures": [], "canaries_expected": 0, "canaries_failed": 0, "other": []}
@@ -486,7 +527,22 @@ def _run_property(prop, tier, seed, replay, t0, udir):
         print("property %s is not claimed by this framework (see MANIFEST.not_applicable)" % prop)
         return 2
     cfg = props[prop]
-    units = cfg["units"]
+    # `depends`: properties whose proved contracts / invariants this property's proof ASSUMES across functions that do not call each
+    # other (a data-structure invariant established by other operations, a constructor's postcondition used as a premise). A failing
+    # obligation of a dependency breaks the chain this property rests on, so it is this property's failure too; their units are run.
+    deps = set(cfg.get("depends", []))
+    units = list(cfg["units"]) + [u for d in sorted(deps) for u in props.get(d, {}).get("units", []) if u not in cfg["units"]]
+    units = list(dict.fromkeys(units))
+
+    def analyse_unit_d(u, r, rep, path):
+        a = analyse_unit(u, r, rep, path)
+        for f in a["failures"]:
+            if deps & set(f["props"]) and prop not in f["props"]:
+                f["props"] = list(f["props"]) + [prop]
+        for o in a["other"]:
+            if o.get("props") and deps & set(o["props"]) and prop not in o["props"]:
+                o["props"] = list(o["props"]) + [prop]
+        return a
     ev = {"property_id": prop, "tier": tier, "seed": seed, "level": cfg.get("level", "proof"), "coverage": {}, "assumptions": [], "wall_s": 0.0, "violations": 0}
     try:
         ensure_extractor()
@@ -498,12 +554,12 @@ def _run_property(prop, tier, seed, replay, t0, udir):
             futs = {u: ex.submit(verify_file, gens[u][0]) for u in units}
             for u, f in futs.items():
                 results[u] = f.result()
-        analyses = {u: analyse_unit(u, results[u], gens[u][1], gens[u][0]) for u in units}
+        analyses = {u: analyse_unit_d(u, results[u], gens[u][1], gens[u][0]) for u in units}
         # retry on resource limits with a larger rlimit
         for u in units:
             if analyses[u]["resource"] and not analyses[u]["compile_error"]:
                 results[u] = verify_file(gens[u][0], rlimit=40)
-                analyses[u] = analyse_unit(u, results[u], gens[u][1], gens[u][0])
+                analyses[u] = analyse_unit_d(u, results[u], gens[u][1], gens[u][0])
         # A VC discharged under ANY solver seed is discharged (each run is a valid proof search); SMT instability must not
         # become an alarm. Failing obligations are therefore re-tried under other seeds and only those failing in EVERY run count.
         for u in units:
@@ -518,7 +574,7 @@ def _run_property(prop, tier, seed, replay, t0, udir):
             retried = 0
             for zseed in (11, 23, 37):
                 r2 = verify_file(gens[u][0], rlimit=20, extra=["--smt-option", "smt.random_seed=%d" % zseed])
-                a2 = analyse_unit(u, r2, gens[u][1], gens[u][0])
+                a2 = analyse_unit_d(u, r2, gens[u][1], gens[u][0])
                 retried += 1
                 if a2["compile_error"]:
                     break
